@@ -232,9 +232,17 @@ pub async fn run(args: &ShardArgs, rep: &mut Report) {
 				place(dir, name, actual);
 				desc.push(format!("{lvl}:{name}:{actual:?}"));
 			}
-			// decoys that are not markers
+			// decoys that are not markers: an unrelated file, and names that differ from a marker by letter case only
 			if rng.chance(1, 3) {
 				std::fs::write(dir.join("README"), "x").ok();
+			}
+			if rng.chance(1, 4) {
+				let (name, node) = *rng.pick(&all_names);
+				let variant = if rng.chance(1, 2) { name.to_lowercase() } else { name.to_uppercase() };
+				if variant != name && !all_names.iter().any(|(n, _)| *n == variant) && !dir.join(&variant).exists() {
+					place(dir, &variant, node);
+					desc.push(format!("{lvl}:decoy:{variant}"));
+				}
 			}
 		}
 		let start = rng.usize(chain.len());
